@@ -280,7 +280,7 @@ static mpmc_fifo_t mf;
 static _Atomic(hazard_pointer_thread_record_t*) mf_head;
 static hazard_pointer_thread_record_t* mf_rec[MAX_FIBERS + 1];
 static mpmc_fifo_node_t* mf_free[MAX_FIBERS + 1];
-static int mf_recycle;
+static int mf_recycle, mf_far;
 static long mf_recycled, mf_reused, mf_gc;
 
 static void mf_gc_fn(void* gc_data, hazard_node_t* node) {
@@ -302,7 +302,9 @@ static mpmc_fifo_node_t* mf_node(int slot) {
     mf_free[slot] = n->next;
     g_add(&mf_reused, 1);
   } else {
-    n = malloc(sizeof *n);
+    // "far" cases take every other node from the arena region 0x90000000 bytes higher (brk heap vs mmap arenas)
+    static int flip;
+    n = (mf_far && (flip++ & 1)) ? vs_alloc_far(sizeof *n) : malloc(sizeof *n);
   }
   n->hazard.gc_data = 0;
   n->hazard.gc_function = mf_gc_fn;
@@ -314,6 +316,8 @@ static hazard_pointer_thread_record_t* mf_record(int slot) {
 }
 static void mpmc_setup(void) {
   mf_recycle = (int)cfg_get("recycle", 1);
+  mf_far = (int)cfg_get("far", 0);
+  if (mf_far) mf_recycle = 1;  // far nodes are never handed to free()
   mf_head = NULL;
   mpmc_fifo_node_t* init = malloc(sizeof *init);
   init->hazard.gc_data = 0;
